@@ -131,5 +131,5 @@ Extraction "model_pvm.ml" boundaries_clean failing_stmt scoped_all pvm_blame_run
   src_positions_of_stmt tpl_positions_of_stmt.
 
 (* C05: the parser model (parse/Parse.v) and the executable side conditions of the print/parse round trip *)
-From Ucg Require Import parse.Parse parse.Parse_Toks parse.Parse_Lemmas.
-Extraction "model_parse.ml" parse_src Parse.parse parse_expr Lex.lex Print.pp_stmts ptoks pnorm prog_ok raw_tpl_prog frag_prog strip_tok.
+From Ucg Require Import parse.Parse parse.Parse_Toks parse.Parse_Lemmas parse.Parse_Lex.
+Extraction "model_parse.ml" parse_src Parse.parse parse_expr Lex.lex Print.pp_stmts ptoks pnorm prog_ok raw_tpl_prog frag_prog strip_tok lex_ok_prog pp_stmts_raw.
